@@ -41,6 +41,11 @@ def concrete_values(sc, harness, timeout_s):
     if not m:
         return None, None, out[-3000:]
     code = m.group(1)
+    # keep only the test item: Kani copies the (possibly multi-line) assertion message into a `///`
+    # comment, which breaks the syntax when the message spans several lines
+    i = code.find('#[test]')
+    if i >= 0:
+        code = code[i:]
     vals = []
     for vm in re.finditer(r'vec!\[([0-9, ]*)\]', code):
         body = vm.group(1).strip()
@@ -59,10 +64,14 @@ def playback(sc, harness, code):
     tm = re.search(r'fn (kani_concrete_playback_\w+)', code)
     if not tm:
         return None, 'no test function in playback output'
+    orig = f.read_text()
     with f.open('a') as fh:
         fh.write('\n' + code + '\n')
     cmd = ['cargo', 'kani', 'playback', '-Z', 'concrete-playback', '--', tm.group(1)]
-    p = subprocess.run(cmd, cwd=sc.tree, env=engine.kani_env(), text=True, capture_output=True)
+    try:
+        p = subprocess.run(cmd, cwd=sc.tree, env=engine.kani_env(), text=True, capture_output=True)
+    finally:
+        f.write_text(orig)  # later harnesses are re-built from the same tree
     out = p.stdout + p.stderr
     if re.search(r'test result: FAILED|panicked at', out):
         return True, out[-1500:]
